@@ -106,6 +106,7 @@ RetViol(e) ==
                  ELSE IF x.outcome = "timed"
                  THEN Check(x.prop, "returns-by-deadline-plus-allowance", e.ms <= x.deadlineMs + x.allowMs)
                       \cup Check(x.prop, "error-unless-a-valid-response-was-obtained", x.mustErr => e.err)
+                      \cup (IF Has(x, "mustOk") /\ x.mustOk THEN Check(x.prop, "succeeds-when-the-final-answer-arrives-within-the-deadline", ~e.err) ELSE {})
                  ELSE IF x.outcome = "agrees"
                  THEN Check(x.vprop, "succeeds-where-specification-has-a-result", ~e.err)
                       \cup (IF e.err THEN {} ELSE Check(x.vprop, "decoded-response-equals-specification", Has(e, "value") /\ Agrees(e.value, x.value)))
